@@ -71,6 +71,15 @@ pub struct Rec {
     pub dst: SocketAddr,
     /// for forged copies: short description of the mutation and whether it changed bytes
     pub note: Option<String>,
+    /// hash of (credential id, key id) of the sampled original
+    pub flow: u64,
+    /// forged copy delivered before any genuine datagram of its flow reached that receiver
+    pub first_flight: bool,
+    /// forged copy of a secret-control packet whose authenticated part is byte-identical to the
+    /// genuine one (UnknownPathSecret: credential id + token; any kind: trailing bytes appended)
+    pub equiv: bool,
+    /// UnknownPathSecret for a credential id that a client really uses
+    pub known_id: bool,
 }
 
 #[derive(Clone, Debug, Default)]
@@ -165,12 +174,17 @@ pub struct LinkStats {
     /// genuine (unmodified, incl. duplicated) secret-control datagrams delivered, by kind
     pub genuine_secret_control: BTreeMap<String, u64>,
     pub forged_secret_control: BTreeMap<String, u64>,
+    pub genuine_ups_known_id: u64,
+    pub equiv_ups_delivered: u64,
+    pub forged_first_flight: u64,
 }
 
 pub struct LinkState {
     cfg: Cfg,
     faults: Vec<Fault>,
     forges: HashMap<(u8, u64), Vec<Forge>>,
+    kind_forges: HashMap<(u8, u8, u64), Vec<Forge>>,
+    kind_ord: HashMap<(u8, u8), u64>,
     vanish: Option<Vanish>,
     pub server_ip: Option<IpAddr>,
     pub server_map: Option<s2n_quic_dc::path::secret::Map>,
@@ -186,6 +200,11 @@ pub struct LinkState {
     ring: [VecDeque<Sample>; 2],
     pub stats: LinkStats,
     decode: bool,
+    /// set by the supervisor when the run is over: teardown traffic is discarded unlogged
+    pub closed: bool,
+    real_ids: std::collections::HashSet<[u8; 16]>,
+    delivered_flows: std::collections::HashSet<(u8, u64)>,
+    forge_as_drop: bool,
 }
 
 pub type Shared = Arc<Mutex<LinkState>>;
@@ -203,13 +222,19 @@ fn now_ns() -> u64 {
 impl LinkState {
     pub fn new(plan: &Plan) -> Self {
         let mut forges: HashMap<(u8, u64), Vec<Forge>> = HashMap::new();
+        let mut kind_forges: HashMap<(u8, u8, u64), Vec<Forge>> = HashMap::new();
         for f in &plan.forges {
-            forges.entry((f.dir, f.ord)).or_default().push(f.clone());
+            match f.kind {
+                None => forges.entry((f.dir, f.ord)).or_default().push(f.clone()),
+                Some(k) => kind_forges.entry((f.dir, k, f.ord)).or_default().push(f.clone()),
+            }
         }
         Self {
             cfg: plan.cfg.clone(),
             faults: plan.faults.clone(),
             forges,
+            kind_forges,
+            kind_ord: HashMap::new(),
             vanish: plan.vanish.clone(),
             server_ip: None,
             server_map: None,
@@ -225,6 +250,10 @@ impl LinkState {
             ring: [VecDeque::new(), VecDeque::new()],
             stats: LinkStats::default(),
             decode: true,
+            closed: false,
+            real_ids: Default::default(),
+            delivered_flows: Default::default(),
+            forge_as_drop: plan.forge_as_drop,
         }
     }
 
@@ -262,6 +291,9 @@ impl LinkState {
     }
 
     fn on_send(&mut self, packet: Packet) -> Vec<Out> {
+        if self.closed {
+            return vec![];
+        }
         let t = now_ns();
         let src = packet.source();
         let dst = packet.destination();
@@ -323,7 +355,17 @@ impl LinkState {
             src,
             dst,
             note: None,
+            flow: hashn(0xf10, &[u64::from_le_bytes(meta.cred_id[..8].try_into().unwrap()), u64::from_le_bytes(meta.cred_id[8..].try_into().unwrap()), meta.key_id]),
+            first_flight: false,
+            equiv: false,
+            known_id: false,
         };
+        if dir == DIR_C2S && meta.kind <= KIND_CONTROL {
+            self.real_ids.insert(meta.cred_id);
+        }
+        if meta.kind == KIND_UPS {
+            rec.known_id = self.real_ids.contains(&meta.cred_id);
+        }
         let mut outs = vec![];
 
         if self.vanished[d] {
@@ -363,16 +405,32 @@ impl LinkState {
         self.faults = faults;
 
         // forgeries sampled from this datagram
-        let forges = self.forges.get(&(dir, ord)).cloned().unwrap_or_default();
+        let mut forges = self.forges.get(&(dir, ord)).cloned().unwrap_or_default();
+        {
+            let ko = self.kind_ord.entry((dir, meta.kind)).or_insert(0);
+            let n = *ko;
+            *ko += 1;
+            if let Some(v) = self.kind_forges.get(&(dir, meta.kind, n)) {
+                forges.extend(v.iter().cloned());
+            }
+        }
         let mut replaced = false;
-        let mut forged: Vec<(i64, Bytes, String, bool, u8)> = vec![];
+        let mut forged: Vec<(i64, Bytes, String, bool, u8, bool)> = vec![];
         for f in &forges {
             if let Some((b, note, changed)) = self.mutate(&f.mutation, dir, &bytes, &meta) {
                 let k = decode_meta(&b).kind;
-                forged.push((f.skew_us, b, note, changed, k));
+                let equiv = changed && secret_control_equivalent(&bytes, &meta, &b, &f.mutation);
+                forged.push((f.skew_us, b, note, changed, k, equiv));
                 if f.replace {
                     replaced = true;
                 }
+            }
+        }
+        if self.forge_as_drop {
+            forged.clear();
+            if replaced {
+                replaced = false;
+                dropped = dropped.or(Some(FATE_DROP));
             }
         }
 
@@ -401,7 +459,7 @@ impl LinkState {
             }
         }
         if dropped.is_none() {
-            for (skew, b, note, changed, k) in forged {
+            for (skew, b, note, changed, k, equiv) in forged {
                 let mut p = packet.clone();
                 *p.transport.payload_mut() = b.clone();
                 let idx = self.log.len();
@@ -410,7 +468,12 @@ impl LinkState {
                 r.label = LABEL_FORGED;
                 r.len = b.len() as u32;
                 r.kind = k;
-                r.note = Some(format!("{note}{}", if changed { "" } else { " (no-op)" }));
+                r.note = Some(format!("{note}{}{}", if equiv { " (authenticated part identical)" } else { "" }, if changed { "" } else { " (no-op: identical bytes, counted as duplicate)" }));
+                r.equiv = equiv;
+                if !changed {
+                    r.label = LABEL_DUP;
+                    self.stats.forged_noop += 1;
+                }
                 self.log.push(r);
                 let dl = (delay as i64 + skew).max(0) as u64;
                 outs.push(Out { delay_us: dl, packet: p, rec: idx });
@@ -422,7 +485,7 @@ impl LinkState {
     }
 
     fn remember(&mut self, d: usize, bytes: Bytes, meta: Meta) {
-        if self.forges.is_empty() {
+        if self.forges.is_empty() && self.kind_forges.is_empty() {
             return;
         }
         let r = &mut self.ring[d];
@@ -572,12 +635,26 @@ impl LinkState {
     }
 
     fn on_deliver(&mut self, rec: usize) {
+        if self.closed {
+            return;
+        }
         let t = now_ns();
-        let (dir, ord, dst, label, kind) = {
+        if std::env::var("VERIF_DEBUG").is_ok() {
+            eprintln!("deliver rec {rec} t {t} ord {} label {}", self.log[rec].ord, self.log[rec].label);
+        }
+        let (dir, ord, dst, label, kind, flow, equiv, known_id) = {
             let r = &mut self.log[rec];
             r.t_deliver_ns = t;
-            (r.dir as usize, r.ord, r.dst, r.label, r.kind)
+            (r.dir as usize, r.ord, r.dst, r.label, r.kind, r.flow, r.equiv, r.known_id)
         };
+        if label == LABEL_FORGED {
+            if kind <= KIND_CONTROL && !self.delivered_flows.contains(&(dir as u8, flow)) {
+                self.log[rec].first_flight = true;
+                self.stats.forged_first_flight += 1;
+            }
+        } else if kind <= KIND_CONTROL {
+            self.delivered_flows.insert((dir as u8, flow));
+        }
         self.last_rx_ns.insert(dst.ip(), t);
         if label == LABEL_GENUINE {
             if self.any_delivered[dir] && ord < self.max_delivered[dir] {
@@ -595,19 +672,49 @@ impl LinkState {
         if label == LABEL_FORGED {
             self.stats.forged_delivered += 1;
             let note = self.log[rec].note.clone().unwrap_or_default();
-            if note.ends_with("(no-op)") {
-                self.stats.forged_noop += 1;
-            }
             *self.stats.forged_by_kind.entry(kind_name(kind).to_string()).or_insert(0) += 1;
             let mname = note.split_whitespace().next().unwrap_or("?").to_string();
             *self.stats.forged_by_mutation.entry(mname).or_insert(0) += 1;
             if is_sc {
                 *self.stats.forged_secret_control.entry(kind_name(kind).to_string()).or_insert(0) += 1;
             }
+            if equiv && known_id {
+                self.stats.equiv_ups_delivered += 1;
+            }
         } else if is_sc {
             *self.stats.genuine_secret_control.entry(kind_name(kind).to_string()).or_insert(0) += 1;
+            if kind == KIND_UPS && known_id {
+                self.stats.genuine_ups_known_id += 1;
+            }
         }
     }
+}
+
+/// true if `new` is a secret-control datagram whose authenticated part equals that of the genuine
+/// `orig` (so accepting it is accepting the genuine packet)
+fn secret_control_equivalent(orig: &[u8], meta: &Meta, new: &[u8], m: &Mutation) -> bool {
+    if !(KIND_STALE_KEY..=KIND_UPS).contains(&meta.kind) {
+        return false;
+    }
+    if matches!(m, Mutation::Extend { .. }) {
+        return true;
+    }
+    if meta.kind != KIND_UPS || orig.len() < 34 || new.len() < 34 {
+        return false;
+    }
+    // UnknownPathSecret: tag byte, id (16), wire version, [queue id], token (16)
+    let hdr = |b: &[u8]| -> Option<usize> {
+        if b[0] & !0x04 != 0x60 {
+            return None;
+        }
+        let q = if b[0] & 0x04 != 0 { 1usize << (b.get(18)? >> 6) } else { 0 };
+        Some(18 + q)
+    };
+    let (Some(ho), Some(hn)) = (hdr(orig), hdr(new)) else { return false };
+    if orig.len() < ho + 16 || new.len() < hn + 16 {
+        return false;
+    }
+    orig[1..17] == new[1..17] && orig[ho..ho + 16] == new[hn..hn + 16]
 }
 
 fn aws_hmac() -> &'static aws_lc_rs::hmac::Algorithm {
@@ -627,16 +734,16 @@ impl Allocator for SimLink {
         _monitors: &Monitors,
         _pcaps: &mut pcap::Registry,
     ) -> PacketQueue {
-        let (tx_sender, mut tx_receiver) = vec_deque::Queue::<Segments>::builder()
-            .with_capacity(Some(8192))
+        let (tx_sender, mut tx_receiver) = vec_deque::Queue::builder()
+            .with_capacity(None)
             .with_overflow(vec_deque::Overflow::PreferOldest)
-            .build()
+            .build::<Segments>()
             .mutex()
             .channel();
-        let (rx_sender, rx_receiver) = vec_deque::Queue::<Packet>::builder()
-            .with_capacity(Some(8192))
+        let (rx_sender, rx_receiver) = vec_deque::Queue::builder()
+            .with_capacity(None)
             .with_overflow(vec_deque::Overflow::PreferOldest)
-            .build()
+            .build::<Packet>()
             .mutex()
             .channel();
         let _: &Sender<Segments> = &tx_sender;
